@@ -21,7 +21,7 @@ import (
 )
 
 func main() {
-	mode := flag.String("mode", "rewrite", "rewrite | genos | gostart")
+	mode := flag.String("mode", "rewrite", "rewrite | genos | gostart | closeyield")
 	shims := flag.String("shims", "sync,os", "comma separated std packages to redirect")
 	mod := flag.String("mod", "github.com/a-h/templ/zzverif/shim", "import path prefix of the shims")
 	out := flag.String("out", "", "genos: output file")
@@ -56,6 +56,17 @@ func main() {
 			n += c
 		}
 		fmt.Printf("instrumented %d go statements\n", n)
+	case "closeyield":
+		n := 0
+		for _, dir := range flag.Args() {
+			c, err := closeYieldDir(dir, *mod+"/simhook")
+			if err != nil {
+				fmt.Fprintln(os.Stderr, err)
+				os.Exit(1)
+			}
+			n += c
+		}
+		fmt.Printf("instrumented %d close statements\n", n)
 	case "genos":
 		if err := genReexport("os", "simos", *out, strings.Split(*overrides, ",")); err != nil {
 			fmt.Fprintln(os.Stderr, err)
@@ -169,6 +180,101 @@ func goStartDir(dir, hookPath string) (int, error) {
 		}
 		if !added {
 			f.Decls = append([]ast.Decl{&ast.GenDecl{Tok: token.IMPORT, Specs: []ast.Spec{imp}}}, f.Decls...)
+		}
+		var buf bytes.Buffer
+		if err := format.Node(&buf, fset, f); err != nil {
+			return total, err
+		}
+		if err := os.WriteFile(p, buf.Bytes(), 0o644); err != nil {
+			return total, err
+		}
+		total += n
+	}
+	return total, nil
+}
+
+// closeYieldDir inserts simhook.Yield("<file>:<line>") after every `close(ch)` statement in the
+// non-test files of dir: closing a channel may make another goroutine runnable while this one
+// carries on, and the world may want to hold this one there.
+func closeYieldDir(dir, hookPath string) (int, error) {
+	ents, err := os.ReadDir(dir)
+	if err != nil {
+		return 0, err
+	}
+	total := 0
+	for _, e := range ents {
+		name := e.Name()
+		if e.IsDir() || !strings.HasSuffix(name, ".go") || strings.HasSuffix(name, "_test.go") || strings.HasPrefix(name, "zz_verif") {
+			continue
+		}
+		p := filepath.Join(dir, name)
+		fset := token.NewFileSet()
+		f, err := parser.ParseFile(fset, p, nil, parser.ParseComments)
+		if err != nil {
+			return total, err
+		}
+		n := 0
+		fix := func(list []ast.Stmt) []ast.Stmt {
+			var out []ast.Stmt
+			for _, st := range list {
+				out = append(out, st)
+				es, ok := st.(*ast.ExprStmt)
+				if !ok {
+					continue
+				}
+				call, ok := es.X.(*ast.CallExpr)
+				if !ok {
+					continue
+				}
+				if id, ok := call.Fun.(*ast.Ident); !ok || id.Name != "close" || len(call.Args) != 1 {
+					continue
+				}
+				site := fmt.Sprintf("%s:%d", name, fset.Position(st.Pos()).Line)
+				out = append(out, &ast.ExprStmt{X: &ast.CallExpr{
+					Fun:  &ast.SelectorExpr{X: ast.NewIdent("verifsimhook"), Sel: ast.NewIdent("Yield")},
+					Args: []ast.Expr{&ast.BasicLit{Kind: token.STRING, Value: strconv.Quote(site)}},
+				}})
+				n++
+			}
+			return out
+		}
+		ast.Inspect(f, func(nd ast.Node) bool {
+			switch x := nd.(type) {
+			case *ast.BlockStmt:
+				x.List = fix(x.List)
+			case *ast.CaseClause:
+				x.Body = fix(x.Body)
+			case *ast.CommClause:
+				x.Body = fix(x.Body)
+			}
+			return true
+		})
+		if n == 0 {
+			continue
+		}
+		hasImport := false
+		for _, imp := range f.Imports {
+			if imp.Name != nil && imp.Name.Name == "verifsimhook" {
+				hasImport = true
+			}
+		}
+		if !hasImport {
+			imp := &ast.ImportSpec{Name: ast.NewIdent("verifsimhook"), Path: &ast.BasicLit{Kind: token.STRING, Value: strconv.Quote(hookPath)}}
+			added := false
+			for _, d := range f.Decls {
+				if gd, ok := d.(*ast.GenDecl); ok && gd.Tok == token.IMPORT {
+					gd.Specs = append(gd.Specs, imp)
+					if !gd.Lparen.IsValid() {
+						gd.Lparen = gd.Pos()
+						gd.Rparen = gd.End()
+					}
+					added = true
+					break
+				}
+			}
+			if !added {
+				f.Decls = append([]ast.Decl{&ast.GenDecl{Tok: token.IMPORT, Specs: []ast.Spec{imp}}}, f.Decls...)
+			}
 		}
 		var buf bytes.Buffer
 		if err := format.Node(&buf, fset, f); err != nil {
